@@ -137,6 +137,8 @@ async fn connect_uplink(
     let socket = Arc::new(BatchUdpSocket::new(sock)?);
 
     let conn_id = rand::rng().next_u64();
+    #[cfg(feature = "verif-hooks")]
+    let conn_id = super::verif_hooks::seeded_conn_id(conn_id);
     let label = format!("{}:{} via {}", receiver_host, receiver_port, ip);
     let conn = SrtlaConnection::new_registering(conn_id, label, ip, now_ms());
     let io = ConnIo {
